@@ -165,6 +165,15 @@ CHECKS["C06"] = dict(category="exploration",
            "numbering, lookup identity, parent links, cds.region and re-creation equality after every step.",
       note="Location order is asserted among features that do not cross the origin. Exceptions from candidate cluster creation end a case without verdict (C05).",
       design="3/C06")
+CHECKS["C17"] = dict(category="exploration",
+      technique="differential execution of tie-heavy Hypothesis cases in a pool of long-lived child processes with different PYTHONHASHSEED values and perturbed memory layouts; equality of per-stage sha256 digests of canonical dumps",
+      text="Each generated case (equal starts/scores/coordinates/products) is executed twice in each of 10 (thorough 16) child processes started "
+           "with hash seeds {0..6, 4294967295} plus seeds drawn from VERIF_SEED, each allocating a child-specific amount of ballast first; stages "
+           "compared: refine_hmmscan_results (both modes), hmmer.remove_overlapping, filter_results/_multiple, full rule detection "
+           "(hmm_detection.run_on_record with dynamic profiles) -> protoclusters and CDS annotations, candidate/region formation and numbering, "
+           "GenBank text, per-region GenBank, results JSON. Any digest disagreement is a violation with the differing path reported.",
+      note="A sample of hash seeds and allocation patterns, not all 2^32; only agreement between runs is asserted, never which order is right.",
+      design="3/C17")
 NOT_YET = {}
 
 def main():
